@@ -145,6 +145,75 @@ fn tag_step(p: &mut PrivateExtensionList, m: &mut PModel) {
     assert!(h::plist_is(p, m), "tags(): sorted multiset, exactly the model; is_empty consistent");
 }
 
+
+// ---- one inductive step from an ARBITRARY pre-state (DESIGN 4, C10) -------------------------
+// Histories from `default()` only reach states of at most H elements.  Here the pre-state is any
+// vector that satisfies the representation invariant the code relies on (built through the
+// cfg-guarded raw constructor): 0..=3 well-formed, normalised elements, strictly increasing
+// (attributes) / non-decreasing (private tags).  One symbolic operation follows and the post-state
+// is compared with the model through the getters - which also re-establishes the invariant, so the
+// step covers histories of any length whose states hold at most 3 elements.
+use tinystr::TinyAsciiStr;
+
+fn txt_tiny(t: &Txt) -> TinyAsciiStr<8> {
+    let n = spec::txt_len(t);
+    match TinyAsciiStr::<8>::from_bytes(&t[..n]) {
+        Ok(x) => x,
+        Err(_) => {
+            k::assume(false);
+            unreachable!()
+        }
+    }
+}
+
+/// `strict`: strictly increasing (set) vs non-decreasing (multiset)
+fn any_sorted_state(lo: usize, strict: bool) -> (Vec<TinyAsciiStr<8>>, [Txt; VMAX], usize) {
+    let n = k::u8() as usize;
+    k::assume(n <= 3);
+    let mut v: Vec<TinyAsciiStr<8>> = Vec::with_capacity(crate::spec::VMAX);
+    let mut a = [NOTXT; VMAX];
+    let mut i = 0;
+    while i < 3 {
+        if i < n {
+            let t = sym::tok_range(lo, 8);
+            sym::note("state", &t);
+            let inf = spec::info(&t);
+            k::assume(if lo == 1 { inf.is_private() } else { inf.is_utype() });
+            let low = inf.lower();
+            if i > 0 {
+                let c = spec::txt_cmp(&a[i - 1], &low);
+                k::assume(if strict { c < 0 } else { c <= 0 });
+            }
+            a[i] = low;
+            v.push(txt_tiny(&low));
+        }
+        i += 1;
+    }
+    (v, a, n)
+}
+
+fn attr_inductive() {
+    let (v, a, n) = any_sorted_state(3, true);
+    let mut u = UnicodeExtensionList::verif_with_attributes(v);
+    let mut m = UModel { attrs: a, nattrs: n, kw: xspec::KV::new() };
+    cover!(n == 3);
+    assert!(h::ulist_is(&u, &m), "pre-state: getters show exactly the raw vector");
+    attr_step(&mut u, &mut m);
+    cover!(m.nattrs == 2 && n == 3);
+    cover!(m.nattrs == 4);
+    core::mem::forget(u);
+}
+fn tag_inductive() {
+    let (v, a, n) = any_sorted_state(1, false);
+    let mut p = PrivateExtensionList::verif_from_tags(v);
+    let mut m = PModel { tags: a, ntags: n };
+    cover!(n == 3);
+    assert!(h::plist_is(&p, &m), "pre-state: getters show exactly the raw vector");
+    tag_step(&mut p, &mut m);
+    cover!(m.ntags == 2 && n == 3);
+    core::mem::forget(p);
+}
+
 fn attr_history<const H: usize>() {
     let mut u = UnicodeExtensionList::default();
     let mut m = UModel { attrs: [NOTXT; VMAX], nattrs: 0, kw: xspec::KV::new() };
@@ -203,7 +272,7 @@ fn variants_ops<const NV: usize>() {
 use crate::xspec::{KV, KMAX, TYMAX};
 
 /// model of `set_*(key, values)`: all arguments validated first (error => no change), `true` dropped
-fn kv_set(kv: &mut KV, key_ok: bool, key: Txt, vals: &[(bool, Txt); 2], nv: usize) -> bool {
+pub fn kv_set(kv: &mut KV, key_ok: bool, key: Txt, vals: &[(bool, Txt); 2], nv: usize) -> bool {
     if !key_ok {
         return false;
     }
@@ -429,6 +498,8 @@ proofs! {
 
 [insrem, sortt] fn c10_attr_history_2() { attr_history::<2>() }
 [insrem, sortt] fn c10_attr_history_3() { attr_history::<3>() }
+[push, insrem, sortt] fn c10_attr_inductive() { attr_inductive() }
+[push, insrem, sortt] fn c10_tag_inductive() { tag_inductive() }
 [push, insrem, sortt] fn c10_tag_history_2() { tag_history::<2>() }
 [push, insrem, sortt] fn c10_tag_history_3() { tag_history::<3>() }
 [push, sortt] fn c10_kw_history_1() { kw_history::<1>() }
